@@ -220,6 +220,7 @@ pub struct St {
     next_tid: Tid,
     pub live_snaps: i64,
     pub write_pending: bool,
+    pub pending_writer: Option<Tid>,
     pub write_pending_since_step: u64,
     probe: Option<ide::Analysis>,
     runtime_owner: BTreeMap<u64, Tid>,
@@ -493,6 +494,7 @@ impl Core {
                 next_tid: 1,
                 live_snaps: 0,
                 write_pending: false,
+                pending_writer: None,
                 write_pending_since_step: 0,
                 probe: None,
                 runtime_owner: BTreeMap::new(),
@@ -767,6 +769,7 @@ impl Core {
         if st.live_snaps > 0 {
             st.threads.get_mut(&id).unwrap().status = Status::BlockedOnSnapshots;
             st.set_write_pending();
+            st.pending_writer = Some(id);
             st.log(None, || format!("{id} blocked-on-snapshots"));
         }
         self.cv.notify_all();
@@ -847,6 +850,17 @@ impl Controller for Handle {
         let mut st = core.lock();
         if st.freerun || !st.threads.contains_key(&who) {
             return;
+        }
+        // A writer that was waiting for the snapshots reports again: the write itself is over
+        // (whatever the writer goes on to do before `apply:end` - e.g. warm caches on a snapshot
+        // of its own - happens in the new revision and is not "inside a pending change").
+        if st.write_pending && st.pending_writer == Some(who) {
+            st.pending_writer = None;
+            let d = st.step - st.write_pending_since_step;
+            if d > st.probes.max_apply_steps {
+                st.probes.max_apply_steps = d;
+            }
+            st.write_pending = false;
         }
         let want_keys = st.want_keys;
         let mut make_probe = None;
